@@ -497,6 +497,10 @@ def time_method(ip, o, name, args, kw, ctx):
             if o.n == 3:
                 raise _uns("len of >= 3 parts")
             return o.n
+        if name == "__iter__":
+            if o.n == 3:
+                raise _uns("iteration over >= 3 split parts")
+            return [TimeStrPart(o.ts, i) for i in range(o.n)]
         return NotImplemented
     if isinstance(o, TimeStrPart):
         if name == "__int__":
